@@ -340,6 +340,12 @@ def validate_h5(seed=0):
         if outs[0] != outs[1]:
             raise ModelMismatch(f"h5 error behaviour differs: {outs}")
         n += 1
+    # fixed-width byte strings cut what does not fit
+    for f in (real, model):
+        f.create_dataset('fixedw', shape=(2,), dtype='S3', data=[b'abcdef', 'caf\u00e9'.encode('utf8')])
+    if [bytes(x) for x in real['fixedw'][:]] != [bytes(x) for x in model['fixedw'][:]]:
+        raise ModelMismatch(f"h5 fixed-width strings: {list(real['fixedw'][:])} vs {list(model['fixedw'][:])}")
+    n += 1
     # mixed element kinds without a declared dtype: numpy's coercion decides (numbers next to bytes become fixed-width text)
     for k, payload in enumerate(([b'', 1, 12], [b'x', 2.5], ['a', 3], [b'', None])):
         outs = []
